@@ -503,10 +503,8 @@ func (f *frame) frameObs(kind string, pc string, from, to *Heap, pos token.Pos) 
 			ne = append(ne, fmt.Sprintf("(not (= %s %s))", bv, r))
 		}
 		e.useQuant = true
+		// ghost state too is framed for pre-existing objects only: hashes, sinks and readers created during the call are new
 		bound := fmt.Sprintf("(<= %s pre)", bv)
-		if strings.HasPrefix(k, "G.") {
-			bound = "true"
-		}
 		cond := fmt.Sprintf("(forall ((%s Int)) (=> (and %s %s) (= (select %s %s) (select %s %s))))", bv, bound, and(ne...), cur, bv, old, bv)
 		e.ob(f, kind, "touches: only the named objects change in "+k, f.tags, pc, cond, pos)
 	}
